@@ -43,7 +43,8 @@ func (a jsonMultiset) hashCode(metadata []Metadata) [8]byte {
 		h = append(h, v.hashCode(metadata))
 	}
 	sort.Sort(h)
-	b := make([]byte, 0, len(a)*8)
+	b := make([]byte, 0, 8+len(a)*8)
+	b = append(b, 0xA8, 0x13, 0x7C, 0x4F, 0xE5, 0x02, 0xF8, 0x7F) // random bytes, NaN as a float64
 	for _, c := range h {
 		b = append(b, c[:]...)
 	}
